@@ -17,8 +17,8 @@ CONSTANTS
   Dev_BreakOnLenErr,       \* negative control: a length error ends the probing of a service id
   Dev_CheckDoesNotRestore  \* negative control: check_session notices the wrong session but does not re-enter
 
-VARIABLES M, C, pc, queue, cur, todo, sid, li, found, truth, hist, result
-vars == <<M, C, pc, queue, cur, todo, sid, li, found, truth, hist, result>>
+VARIABLES M, C, pc, queue, cur, todo, sid, li, found, truth, hist, result, verdict
+vars == <<M, C, pc, queue, cur, todo, sid, li, found, truth, hist, result, verdict>>
 
 \* ------------------------------------------------------------ abstract ECU
 Cls(k, at, pos, drop) == [k |-> k, at |-> at, pos |-> pos, drop |-> drop]
@@ -57,8 +57,9 @@ Init ==
   \* assumption A1: an ECU that leaves its session by itself is only in scope with check_session
   \* (and a readable session); without the check no scanner could notice
   /\ HasDrop(M) => (C.check /\ C.has /\ M.sessRead)
+  /\ (~C.check) => M.sessRead          \* the session read only matters with check_session
   /\ pc = "Start" /\ queue = <<>> /\ cur = 0 /\ todo = {} /\ sid = 0 /\ li = 1
-  /\ found = {} /\ truth = 1 /\ hist = <<>> /\ result = {}
+  /\ found = {} /\ truth = 1 /\ hist = <<>> /\ result = {} /\ verdict = "?"
 
 \* main(): session list filtered by whole-session skips
 Start ==
@@ -67,7 +68,7 @@ Start ==
      THEN /\ queue' = SelectSeq(C.sessions, LAMBDA s : s \notin C.skipAll)
           /\ pc' = "NextSess" /\ UNCHANGED todo
      ELSE /\ pc' = "Sid" /\ todo' = Sids /\ UNCHANGED queue
-  /\ UNCHANGED <<M, C, cur, sid, li, found, truth, hist, result>>
+  /\ UNCHANGED <<M, C, cur, sid, li, found, truth, hist, result, verdict>>
 
 DscEv(s) == <<truth, 2, 16, s, 256, IF s \in ModelSessions THEN POS ELSE NEG>>
 
@@ -82,7 +83,7 @@ NextSess ==
           /\ IF s \in ModelSessions
              THEN truth' = s /\ cur' = s /\ todo' = Sids /\ pc' = "Sid"
              ELSE UNCHANGED <<truth, cur, todo>> /\ pc' = "NextSess"     \* "skipping session"
-  /\ UNCHANGED <<M, C, sid, li, found, result>>
+  /\ UNCHANGED <<M, C, sid, li, found, result, verdict>>
 
 RespIdFilter(x) == IF Dev_MaskBit7 THEN (x \div 128) % 2 = 1 ELSE IsRespId(x)
 
@@ -96,7 +97,7 @@ SidStep ==
           /\ IF (RespIdFilter(x) /\ ~C.respIds) \/ (C.has /\ (cur \in C.skipAll \/ <<cur, x>> \in C.skip))
              THEN pc' = "Sid" /\ UNCHANGED <<sid, li>>
              ELSE sid' = x /\ li' = 1 /\ pc' = (IF C.has /\ C.check THEN "Check" ELSE "Probe")
-  /\ UNCHANGED <<M, C, queue, cur, found, truth, hist, result>>
+  /\ UNCHANGED <<M, C, queue, cur, found, truth, hist, result, verdict>>
 
 ReadEv(t) == <<t, 3, 34, 241, 134, IF M.sessRead THEN POS ELSE NEG>>
 
@@ -109,7 +110,7 @@ Check ==
      ELSE /\ hist' = Append(hist, ReadEv(truth))
           /\ UNCHANGED truth
   /\ pc' = "Probe"
-  /\ UNCHANGED <<M, C, queue, cur, todo, sid, li, found, result>>
+  /\ UNCHANGED <<M, C, queue, cur, todo, sid, li, found, result, verdict>>
 
 \* await self.ecu.send_raw(bytes([sid]) + bytes(length_payload)) and the reverse matching
 Probe ==
@@ -125,28 +126,29 @@ Probe ==
            THEN IF li < Len(Lens) THEN li' = li + 1 /\ UNCHANGED <<pc, found>>
                                   ELSE pc' = "Sid" /\ UNCHANGED <<li, found>>
            ELSE found' = found \cup {<<cur, sid>>} /\ pc' = "Sid" /\ UNCHANGED li
-  /\ UNCHANGED <<M, C, queue, cur, todo, sid, result>>
+  /\ UNCHANGED <<M, C, queue, cur, todo, sid, result, verdict>>
 
 Report ==
   /\ pc = "Report"
   /\ result' = found /\ pc' = "Done"
+  /\ verdict' = Verdict(CC, EE, hist, found)        \* the contract's verdict on the finished scan
   /\ UNCHANGED <<M, C, queue, cur, todo, sid, li, found, truth, hist>>
 
 Next == Start \/ NextSess \/ SidStep \/ Check \/ Probe \/ Report
 Spec == Init /\ [][Next]_vars /\ WF_vars(Next)
 
 \* ------------------------------------------------------------ properties
+\* (the contract is evaluated once per finished scan, in Report; one invariant per clause)
 TypeOK == pc \in {"Start", "NextSess", "Sid", "Check", "Probe", "Report", "Done"}
-A == Acc(CC, EE, hist)
 Done == pc = "Done"
-M0_Model        == Done => M0_FakeConsistent(CC, EE, A)
-V1a_Only        == Done => V1a_OnlySupported(CC, EE, A, result)
-V1b_All         == Done => V1b_AllSupported(CC, EE, A, result)
-V2_InSession    == V2_ProbesInSession(CC, A)              \* holds at every moment, not only at the end
-V3_Attempt      == Done => V3_Attempted(CC, A)
-V3_Probed       == Done => V3_AllProbed(CC, A)
-V4_Skip         == V4_SkippedNotProbed(CC, A)
-V5_RespIds      == V5_RespIdsOnlyIfAsked(CC, A)
-VerdictOk       == Done => Verdict(CC, EE, hist, result) = "ok"
+M0_Model        == verdict # "M0/fake-ecu-inconsistent-with-its-model"
+V1a_Only        == verdict # "V1/reported-but-not-supported"
+V1b_All         == verdict # "V1/supported-but-not-reported"
+V2_InSession    == verdict # "V2/probe-outside-claimed-session"
+V3_Attempt      == verdict # "V3/requested-session-not-attempted"
+V3_Probed       == verdict # "V3/service-id-not-probed"
+V4_Skip         == verdict # "V4/skipped-was-probed"
+V5_RespIds      == verdict # "V5/response-id-probed-unasked"
+VerdictOk       == Done => verdict = "ok"
 Terminates      == <>Done
 =============================================================================
